@@ -29,10 +29,12 @@ RULE = ("scenario = 2..24 files (empty files mixed in, 0..>10^4 results per file
 
 
 def gen_scenario(rng, tier, big=False):
-    nfiles = rng.choice([2, 2, 3, 4, 6, 12, 24]) if not big else rng.choice([2, 3])
+    nfiles = rng.choice([2, 2, 3, 4, 6, 12, 24]) if not big else \
+        (3 if tier == 'quick' else rng.choice([2, 3]))
     scn = gen.gen_run_scenario(rng, tier, nfiles=nfiles, constraint=0.0 if big else 0.15,
                                empty=0.0 if big else 0.15,
-                               lines=(rng.choice([3000, 12000]) if big else None))
+                               lines=((12000 if tier == 'quick' else rng.choice([3000, 12000]))
+                                      if big else None))
     if big:
         # every line ends in a token that is unique in the whole run: each file stores far more
         # than one index block (1000) of distinct values while the other tasks do the same
